@@ -148,6 +148,7 @@ pub fn classify(src: &str, rules: &[String]) -> String {
         ("local_with_duplicate_names_and_nil_value", "remove_nil_declaration"),
         ("sqrt_of_negated_expression", "convert_square_root_call"),
         ("interpolated_string_with_holes_in_unused_local", "remove_unused_variable"),
+        ("profiling_call_in_multivalue_tail_position", "remove_debug_profiling"),
     ] {
         if has(rule) && found.contains(&trigger) {
             return trigger.to_string();
@@ -200,10 +201,24 @@ impl<'a> Finder<'a> {
     }
 
     fn tail(&mut self, es: &[Expr]) {
+        self.tail_in(es, true)
+    }
+
+    /// `count_visible`: the number of values the last expression yields can be observed (call arguments, return
+    /// lists, table constructors) - in a `local` / assignment missing values are nil anyway
+    fn tail_in(&mut self, es: &[Expr], count_visible: bool) {
         // the last expression of a list is in a multi-value position
         if let Some(Expr::Binary(op, l, r)) = es.last() {
             if matches!(op, BinOp::And | BinOp::Or) && is_const_literal(l) && r.is_multi() {
                 self.add("and_or_const_left_multivalue_right_in_tail_position");
+            }
+        }
+        if let Some(Expr::Call { func, .. }) = es.last() {
+            if let Expr::Field(m, f) = &**func {
+                if count_visible && (f == "profilebegin" || f == "profileend") && matches!(&**m, Expr::Name(n) if n == "debug") {
+                    // a no-op yields no value there; the rule writes `nil` (one value)
+                    self.add("profiling_call_in_multivalue_tail_position");
+                }
             }
         }
         if let Some(Expr::IfExpr { clauses, else_ }) = es.last() {
@@ -251,12 +266,12 @@ impl<'a> Finder<'a> {
 
     fn stmt(&mut self, s: &Stmt) {
         match s {
-            Stmt::Local { values, .. } => self.tail(values),
+            Stmt::Local { values, .. } => self.tail_in(values, false),
             Stmt::Assign { targets, values } => {
                 for t in targets {
                     self.expr(t);
                 }
-                self.tail(values);
+                self.tail_in(values, false);
             }
             Stmt::CompoundAssign { target, value, .. } => {
                 self.expr(target);
